@@ -268,12 +268,14 @@ func Preds(seed uint64, n int) *Out {
 				}, s))
 			}
 		}
-		for _, l := range [][]string{{}, {"a"}, {"a", "b"}, {"", "x"}, {"é", "e"}, {"ab", "abc"}} {
+		long := func(n int, c string) string { return strings.Repeat(c, n) }
+		for _, l := range [][]string{{}, {"a"}, {"a", "b"}, {"", "x"}, {"é", "e"}, {"ab", "abc"},
+			{long(63, "d"), long(64, "d"), long(65, "d"), long(128, "d")}, {long(64, "e"), "x"}, {long(300, "f")}} { // (members of every length: digests, tokens, urls)
 			var xs []string
 			for _, s := range l {
 				xs = append(xs, eng.CoqStr(s))
 			}
-			for _, s := range []string{"", "a", "b", "x", "é", "e", "ab", "abc", "abcd", "A"} {
+			for _, s := range []string{"", "a", "b", "x", "é", "e", "ab", "abc", "abcd", "A", long(63, "d"), long(64, "d"), long(65, "d"), long(64, "e"), long(64, "x"), long(128, "d"), long(300, "f"), long(299, "f")} {
 				add("str.oneof", "(BStrOneOf ["+strings.Join(xs, "; ")+"])", neg, dstr(s), passStr(func(x *z.StringSchema[string]) {
 					if neg {
 						wrap(x).OneOf(l)
